@@ -233,7 +233,7 @@ class KernelEvalBase:
 
         """
         m, dm = self.multiplicative_baseline(X0T)
-        add_base = add_base and self.additive_baseline is not None
+        add_base = add_base and self._add_basefunc is not None
         if add_base:
             a, da = self.additive_baseline(X0T)
 
